@@ -1,6 +1,7 @@
 package main
 
 import (
+	"runtime"
 	"bytes"
 	"context"
 	"fmt"
@@ -264,6 +265,10 @@ type solveJob struct {
 // dischargeAll runs all obligations through the solvers: phase A, the fast solver alone on every obligation (all cores); phase B, the
 // three solvers raced on what is left, with limited parallelism so that each solver process has a core to itself.
 func dischargeAll(jobs []solveJob, workDir string, quickS, fullS int, all bool, workers int) {
+	if workers < 12 {
+		// fewer cores than the limits were tuned for: give each query proportionally more time
+		quickS, fullS = quickS*2, fullS*2
+	}
 	os.MkdirAll(workDir, 0o755)
 	files := make([]string, len(jobs))
 	var pending []int
@@ -338,7 +343,7 @@ func dischargeAll(jobs []solveJob, workDir string, quickS, fullS int, all bool, 
 			undecided = append(undecided, i)
 		}
 	}
-	if n := len(undecided); n > 0 && n <= 6 {
+	if n := len(undecided); n > 0 && n <= 12 {
 		runPool(n, 2, func(k int) {
 			i := undecided[k]
 			o := jobs[i].o
@@ -378,6 +383,18 @@ func dischargeAll(jobs []solveJob, workDir string, quickS, fullS int, all bool, 
 }
 
 const crossCheckEvery = 16
+
+// solverWorkers: one solver process per core, at most 16.
+func solverWorkers() int {
+	n := runtime.NumCPU()
+	if n > 16 {
+		n = 16
+	}
+	if n < 1 {
+		n = 1
+	}
+	return n
+}
 
 func runPool(n, workers int, f func(i int)) {
 	var wg sync.WaitGroup
